@@ -852,13 +852,16 @@ class MiscStream(Stream):
         o = {'ctor': gd(g), 'text': g.to_json()}
 
         def dec(s):
+            # None = absent (no Gateway object at all); ['gw', lab] = a Gateway object and its labels
             try:
-                return gd(Gateway.from_json(s))
+                y = Gateway.from_json(s)
+                return None if y is None else ['gw', gd(y)]
             except Exception as e:
                 return err(e)
         o['dec'] = dec(o['text'])
         try:
-            o['reenc'] = Gateway.from_json(o['text']).to_json()
+            y = Gateway.from_json(o['text'])
+            o['reenc'] = None if y is None else y.to_json()
         except Exception:
             o['reenc'] = None
         o['textx'] = self.gw_textx(o['text'], case)
@@ -1030,10 +1033,13 @@ class MiscStream(Stream):
             if o['mutated']:
                 return 'purity: Gateway modified the Labels it was given'
             if case['kw'] is None:
+                # nothing recorded: no text, and what is read back is ABSENT (None), not an empty Gateway object
                 if o['text'] not in (None, '') or o['dec'] is not None:
-                    return 'roundtrip: empty Gateway encodes as %r / decodes as %r' % (o['text'], o['dec'])
+                    return 'roundtrip: empty Gateway encodes as %r / decodes as %r instead of absent' % (o['text'], o['dec'])
+                if o['decx'] is not None:
+                    return 'roundtrip: Gateway absent text %r decodes as %r instead of absent' % (o['textx'], o['decx'])
                 return None
-            if not same(o['dec'], o['ctor']):
+            if not same(o['dec'], ['gw', o['ctor']]):
                 return 'roundtrip: Gateway %r decodes as %r' % (o['ctor'], o['dec'])
             if o['reenc'] != o['text']:
                 return 'canonical: Gateway re-encoding differs'
@@ -1041,7 +1047,7 @@ class MiscStream(Stream):
                 unknown_only = all(kk not in o['ctor'] for kk, _, _ in case['extras'])
                 if is_err(o['decx']):
                     return 'forward-compat: Gateway.from_json raises %s on extra keys' % o['decx']['err']
-                if unknown_only and not same(o['decx'], o['ctor']):
+                if unknown_only and not same(o['decx'], ['gw', o['ctor']]):
                     return 'forward-compat: Gateway fields changed by unknown keys'
         elif k == 'path':
             if is_err(o.get('ctor')):
